@@ -12,6 +12,10 @@
 (*         .Replicate) submitted through leaderRaftApply, in order             *)
 (*   post  the real secondary store after that real round                      *)
 (*   err   class of the first error the real code reported ("none")           *)
+(*   pidx  the index of the primary (below last: it went backwards)           *)
+(*   ridx  the index the real round handed back                               *)
+(*   fault fetch fault of the round (the batch read was answered by a lagging  *)
+(*         server of the primary); post2/err2: the following fault-free round  *)
 (* Each event is judged on its own with the operators of ReplDiff: the        *)
 (* property is evaluated on the IMPLEMENTATION's inputs, diff and post-state, *)
 (* and the returned diff is compared with the spec's step-wise walk.          *)
@@ -28,12 +32,22 @@ Verdict(i) ==
   LET e    == Trace[i]
       sec  == ToSet(e.pre)
       post == ToSet(e.post)
-      s0   == InitState(e.kind, sec, e.inL, e.inR, e.last)
+      \* the round as the real round function sees it: lastRemoteIndex, the primary's index (pidx), fetch fault
+      s0   == RoundInit(e.kind, sec, e.inL, e.inR, e.last, e.pidx, e.fault)
       fin  == Run(s0)                                   \* the spec's walk on the implementation's inputs
+      \* the diff function called on its own with lastRemoteIndex as given (dels, ups of the event)
+      finD == Run(InitState(e.kind, sec, e.inL, e.inR, e.last))
       L    == ToSet(e.inL)
       R    == ToSet(e.inR)
       D    == ToSet(e.dels)
       U    == ToSet(e.ups)
+      \* what the REAL round wrote (raft commands recorded from replicateACLType / replicateConfig / Replicate)
+      dl   == FlattenSeq([k \in DOMAIN e.cmds |-> IF e.cmds[k].op = "delete" THEN e.cmds[k].ids ELSE <<>>])
+      ul   == FlattenSeq([k \in DOMAIN e.cmds |-> IF e.cmds[k].op = "upsert" THEN e.cmds[k].ids ELSE <<>>])
+      Dr   == ToSet(dl)
+      Ur   == ToSet(ul)
+      hit  == FaultHits(fin)                            \* the fetch fault concerns an object the round must upsert
+      ok   == e.err = "none"
       env  == EnvInput(s0)
   IN
   \* "env" is not a verdict on the code: the harness fed an input outside the environment assumption
@@ -43,29 +57,37 @@ Verdict(i) ==
           F("local-listing", ListingOK(s0))
        \* the hashes stored in the real objects separate the real contents (SetHash / HashConfigEntry)
      \cup F("hash-faithful", HashFaithful(L \cup R))
-     \cup
-       \* the diff the real code returned is the one the step-wise walk produces (as sets, nothing twice)
-          F("diff-walk", D = Rng(fin.dels) /\ U = Rng(fin.ups)
+       \* the diff the real diff function returned is the one the step-wise walk produces (as sets, nothing twice)
+     \cup F("diff-walk", D = Rng(finD.dels) /\ U = Rng(finD.ups)
                          /\ Len(e.dels) = Cardinality(D) /\ Len(e.ups) = Cardinality(U))
-       \* ... and lies between what every correct diff must and may return
-     \cup F("diff-sound", DiffSound(e.kind, L, R, D, U))
-       \* the real store after applying the real diff: replicated set = primary's (id + content)
-     \cup F("post-equals-remote", Converged(post, R))
-     \cup F("local-only-untouched", LocalOnlyUntouched(sec, post, D, U))
-       \* objects the diff did not name are exactly what they were (index included)
-     \cup F("others-untouched", {o \in post : o.id \notin D \cup U} = {o \in sec : o.id \notin D \cup U})
-     \cup F("equal-no-writes", AlreadyEqual(e.kind, L, R) => (D = {} /\ U = {} /\ post = sec /\ e.writes = 0))
-     \cup F("apply-ok", e.err = "none")
+       \* the raft commands of the REAL round delete / upsert exactly what the walk says for this round (with the
+       \* full comparison forced when the primary's index went backwards), every id once, all accepted
+     \cup F("round-writes", ~ok \/ hit \/
+              /\ Dr = Rng(fin.dels) /\ Len(dl) = Cardinality(Dr)
+              /\ Ur = Rng(fin.ups) /\ Len(ul) = Cardinality(Ur)
+              /\ \A k \in DOMAIN e.cmds : e.cmds[k].op \in {"delete", "upsert"} /\ e.cmds[k].ok)
+       \* ... and lie between what every correct diff must and may return
+     \cup F("diff-sound", ~ok \/ hit \/ DiffSound(e.kind, L, R, Dr, Ur))
+       \* the real store after the real round: replicated set = primary's (id + content)
+     \cup F("post-equals-remote", hit \/ Converged(post, R))
+     \cup F("local-only-untouched", LocalOnlyUntouched(sec, post, Dr, Ur))
+       \* objects the round did not name are exactly what they were (index included)
+     \cup F("others-untouched", {o \in post : o.id \notin Dr \cup Ur} = {o \in sec : o.id \notin Dr \cup Ur})
+     \cup F("equal-no-writes", AlreadyEqual(e.kind, L, R) => (e.cmds = <<>> /\ post = sec /\ e.writes = 0))
+       \* a round without a (relevant) fetch fault reports no error
+     \cup F("apply-ok", hit \/ ok)
        \* the model of the application agrees with the real store (content view)
-     \cup F("apply-model", e.err # "none" \/ Proj(post) = Proj(ApplyRound(e.kind, sec, D, U, R).st))
-       \* the raft commands the REAL round submitted (recorded from replicateACLType / replicateConfig /
-       \* IndexReplicator.Replicate) delete exactly D and upsert exactly U, every id once
-     \cup F("round-writes", e.err # "none" \/
-              LET dl == FlattenSeq([k \in DOMAIN e.cmds |-> IF e.cmds[k].op = "delete" THEN e.cmds[k].ids ELSE <<>>])
-                  ul == FlattenSeq([k \in DOMAIN e.cmds |-> IF e.cmds[k].op = "upsert" THEN e.cmds[k].ids ELSE <<>>])
-              IN /\ ToSet(dl) = D /\ Len(dl) = Cardinality(D)
-                 /\ ToSet(ul) = U /\ Len(ul) = Cardinality(U)
-                 /\ \A k \in DOMAIN e.cmds : e.cmds[k].op \in {"delete", "upsert"} /\ e.cmds[k].ok))
+     \cup F("apply-model", ~ok \/ hit \/ Proj(post) = Proj(ApplyRound(e.kind, sec, Dr, Ur, R).st))
+       \* the index the real round handed back is honest (the next round's Consistent assumption holds)
+     \cup F("index-honest", IndexHonest(post, R, ~ok, e.ridx))
+       \* nothing but the primary's current versions was written
+     \cup F("no-stale-body", NoStaleBody(sec, post, R))
+       \* after a round with a fetch fault, the following fault-free REAL round (started from the index handed back,
+       \* or from the old one after an error) makes the secondary equal to the primary
+     \cup F("next-round-converges", e.fault.t = "none" \/ (e.err2 = "none" /\ Converged(ToSet(e.post2), R)))
+       \* a replicated federation state remembers the primary's modify index it was copied at
+     \cup F("fed-primary-index", e.kind # "fed" \/ ~ok \/
+              \A o \in post : o.id \in Ur => \E r \in R : r.id = o.id /\ o.pmi = r.mi))
 
 Init == l = 1
 Next == /\ l <= Len(Trace)
